@@ -143,6 +143,22 @@ func permutations(n int) [][]int {
 
 func genC11(r *Rng, tier string) []Case {
 	cs := []Case{}
+	// programs that go on after a refused call (invalid UTF-8 text, duplicate map keys) on the same encoder
+	for i := 0; i < 120; i++ {
+		items := []Sx{}
+		for j := 2 + r.Intn(5); j > 0; j-- {
+			switch r.Intn(4) {
+			case 0:
+				items = append(items, it("t", B(r.Bytes(1+r.Intn(4)))))
+			case 1:
+				k := randKey(r)
+				items = append(items, it("m", L(L(L(k...), L(it("u", Zi(1)))), L(L(k...), L(it("u", Zi(2)))))))
+			default:
+				items = append(items, randItem(r, 1))
+			}
+		}
+		cs = append(cs, Case{"cbor_prog_cont", items})
+	}
 	// the same entry objects encoded twice (a retry, a second sink)
 	for i := 0; i < 40; i++ {
 		m := randMap(r, 1, r.Intn(5))
